@@ -7,6 +7,7 @@ def run(ctx):
     tasks = gencheck.tasks_for(ctx.tier, "C12")
     ctx.pmap("mzcheck.checks.gencheck", "explore_task", tasks)
     ctx.pmap("mzcheck.checks.gencheck", "sequence_task", gencheck.sequence_tasks(ctx.tier, "C12"), fresh=True)
+    ctx.pmap("mzcheck.checks.gencheck", "alias_task", [dict(which="C12")])
     finish(ctx, tasks)
     ctx.coverage["random_path_executions"] = ctx.res.counters.get("random_path_executions", 0)
 
